@@ -167,6 +167,8 @@ func H_C12_HasMany(shape int) {
 	var kinds []int
 	// the statement trace is replayed on SQLite after native runs (also when an assertion fails)
 	defer func() { mdb.Dump(c12Label("has-many", kinds, unscoped)) }()
+	assoc := db.Model(&o).Association("Pets")
+	assoc = nil
 	for k := 0; k < nops; k++ {
 		tag := "op" + string([]byte{byte('0' + k)})
 		kind := verifrt.Concretize(verifrt.Intn(tag+"_kind", 0, 3), 0, 3)
@@ -190,7 +192,11 @@ func H_C12_HasMany(shape int) {
 		}
 		label := c12Label("has-many", kinds, unscoped)
 		verifrt.Tag(label)
-		a := db.Model(&o).Association("Pets")
+		// the first two operations run on one Association value, the third on a new one
+		if assoc == nil || k == 2 {
+			assoc = db.Model(&o).Association("Pets")
+		}
+		a := assoc
 		if unscoped {
 			a = a.Unscoped()
 		}
@@ -260,6 +266,7 @@ func H_C12_HasMany(shape int) {
 		// Count and Find report exactly those links
 		n := db.Model(&Owner{ID: 1}).Association("Pets").Count()
 		verifrt.Assert(n == int64(len(want)), "C12.count:"+label)
+		verifrt.Assert(a.Count() == n, "C12.count-on-used-value:"+label)
 		var found []Pet
 		verifrt.Assert(db.Model(&Owner{ID: 1}).Association("Pets").Find(&found) == nil, "C12.error:"+label)
 		var got []int
@@ -323,6 +330,8 @@ func H_C12_Polymorphic(shape int) {
 	var kinds []int
 	// the statement trace is replayed on SQLite after native runs (also when an assertion fails)
 	defer func() { mdb.Dump(c12Label("polymorphic", kinds, unscoped)) }()
+	assoc := db.Model(&o).Association("Toys")
+	assoc = nil
 	for k := 0; k < nops; k++ {
 		tag := "op" + string([]byte{byte('0' + k)})
 		kind := verifrt.Concretize(verifrt.Intn(tag+"_kind", 0, 3), 0, 3)
@@ -346,7 +355,11 @@ func H_C12_Polymorphic(shape int) {
 		}
 		label := c12Label("polymorphic", kinds, unscoped)
 		verifrt.Tag(label)
-		a := db.Model(&o).Association("Toys")
+		// the first two operations run on one Association value, the third on a new one
+		if assoc == nil || k == 2 {
+			assoc = db.Model(&o).Association("Toys")
+		}
+		a := assoc
 		if unscoped {
 			a = a.Unscoped()
 		}
@@ -430,6 +443,7 @@ func H_C12_Polymorphic(shape int) {
 		// Count and Find report exactly those links
 		n := db.Model(&Kid{ID: 1}).Association("Toys").Count()
 		verifrt.Assert(n == int64(len(want)), "C12.count:"+label)
+		verifrt.Assert(a.Count() == n, "C12.count-on-used-value:"+label)
 		var found []Toy
 		verifrt.Assert(db.Model(&Kid{ID: 1}).Association("Toys").Find(&found) == nil, "C12.error:"+label)
 		var got []int
@@ -492,6 +506,8 @@ func H_C12_Many2Many(shape int) {
 	db := openReal(stubDialector{nullDefault: true}, s, nil)
 	var kinds []int
 	defer func() { mdb.Dump(c12Label("many2many", kinds, false)) }()
+	assoc := db.Model(&sp).Association("Langs")
+	assoc = nil
 	for k := 0; k < nops; k++ {
 		tag := "op" + string([]byte{byte('0' + k)})
 		kind := verifrt.Concretize(verifrt.Intn(tag+"_kind", 0, 3), 0, 3)
@@ -515,7 +531,11 @@ func H_C12_Many2Many(shape int) {
 		}
 		label := c12Label("many2many", kinds, false)
 		verifrt.Tag(label)
-		a := db.Model(&sp).Association("Langs")
+		// the first two operations run on one Association value, the third on a new one
+		if assoc == nil || k == 2 {
+			assoc = db.Model(&sp).Association("Langs")
+		}
+		a := assoc
 		var err error
 		switch kind {
 		case 0:
@@ -584,6 +604,7 @@ func H_C12_Many2Many(shape int) {
 		}
 		n := db.Model(&Speaker{ID: 1}).Association("Langs").Count()
 		verifrt.Assert(n == int64(len(want)), "C12.count:"+label)
+		verifrt.Assert(a.Count() == n, "C12.count-on-used-value:"+label)
 		var found []Lang
 		verifrt.Assert(db.Model(&Speaker{ID: 1}).Association("Langs").Find(&found) == nil, "C12.error:"+label)
 		var got []int
@@ -643,6 +664,8 @@ func H_C12_HasOne(shape int) {
 	db := openReal(stubDialector{nullDefault: true}, s, nil)
 	var kinds []int
 	defer func() { mdb.Dump(c12Label("has-one", kinds, unscoped)) }()
+	assoc := db.Model(&o).Association("Profile")
+	assoc = nil
 	for k := 0; k < nops; k++ {
 		tag := "op" + string([]byte{byte('0' + k)})
 		kind := verifrt.Concretize(verifrt.Intn(tag+"_kind", 0, 3), 0, 3)
@@ -666,7 +689,11 @@ func H_C12_HasOne(shape int) {
 		}
 		label := c12Label("has-one", kinds, unscoped)
 		verifrt.Tag(label)
-		a := db.Model(&o).Association("Profile")
+		// the first two operations run on one Association value, the third on a new one
+		if assoc == nil || k == 2 {
+			assoc = db.Model(&o).Association("Profile")
+		}
+		a := assoc
 		if unscoped {
 			a = a.Unscoped()
 		}
@@ -735,6 +762,7 @@ func H_C12_HasOne(shape int) {
 		}
 		n := db.Model(&Owner{ID: 1}).Association("Profile").Count()
 		verifrt.Assert(n == want, "C12.count:"+label)
+		verifrt.Assert(a.Count() == n, "C12.count-on-used-value:"+label)
 		var found Profile
 		verifrt.Assert(db.Model(&Owner{ID: 1}).Association("Profile").Find(&found) == nil, "C12.error:"+label)
 		verifrt.Assert(int(found.ID) == link, "C12.find:"+label)
@@ -791,6 +819,8 @@ func H_C12_PolyHasOne(shape int) {
 	db := openReal(stubDialector{nullDefault: true}, s, nil)
 	var kinds []int
 	defer func() { mdb.Dump(c12Label("polymorphic-has-one", kinds, unscoped)) }()
+	assoc := db.Model(&o).Association("Toy")
+	assoc = nil
 	for k := 0; k < nops; k++ {
 		tag := "op" + string([]byte{byte('0' + k)})
 		kind := verifrt.Concretize(verifrt.Intn(tag+"_kind", 0, 3), 0, 3)
@@ -814,7 +844,11 @@ func H_C12_PolyHasOne(shape int) {
 		}
 		label := c12Label("polymorphic-has-one", kinds, unscoped)
 		verifrt.Tag(label)
-		a := db.Model(&o).Association("Toy")
+		// the first two operations run on one Association value, the third on a new one
+		if assoc == nil || k == 2 {
+			assoc = db.Model(&o).Association("Toy")
+		}
+		a := assoc
 		if unscoped {
 			a = a.Unscoped()
 		}
@@ -895,6 +929,7 @@ func H_C12_PolyHasOne(shape int) {
 		}
 		n := db.Model(&Dog{ID: 1}).Association("Toy").Count()
 		verifrt.Assert(n == want, "C12.count:"+label)
+		verifrt.Assert(a.Count() == n, "C12.count-on-used-value:"+label)
 		var found Toy
 		verifrt.Assert(db.Model(&Dog{ID: 1}).Association("Toy").Find(&found) == nil, "C12.error:"+label)
 		verifrt.Assert(int(found.ID) == link, "C12.find:"+label)
@@ -939,6 +974,8 @@ func H_C12_BelongsTo(shape int) {
 	db := openReal(stubDialector{nullDefault: true}, s, nil)
 	var kinds []int
 	defer func() { mdb.Dump(c12Label("belongs-to", kinds, unscoped)) }()
+	assoc := db.Model(&o).Association("Company")
+	assoc = nil
 	for k := 0; k < nops; k++ {
 		tag := "op" + string([]byte{byte('0' + k)})
 		kind := verifrt.Concretize(verifrt.Intn(tag+"_kind", 0, 3), 0, 3)
@@ -962,7 +999,11 @@ func H_C12_BelongsTo(shape int) {
 		}
 		label := c12Label("belongs-to", kinds, unscoped)
 		verifrt.Tag(label)
-		a := db.Model(&o).Association("Company")
+		// the first two operations run on one Association value, the third on a new one
+		if assoc == nil || k == 2 {
+			assoc = db.Model(&o).Association("Company")
+		}
+		a := assoc
 		if unscoped {
 			a = a.Unscoped()
 		}
@@ -1033,6 +1074,7 @@ func H_C12_BelongsTo(shape int) {
 		}
 		n := db.Model(&probe).Association("Company").Count()
 		verifrt.Assert(n == want, "C12.count:"+label)
+		verifrt.Assert(a.Count() == n, "C12.count-on-used-value:"+label)
 		var found Company
 		verifrt.Assert(db.Model(&probe).Association("Company").Find(&found) == nil, "C12.error:"+label)
 		verifrt.Assert(int(found.ID) == link, "C12.find:"+label)
@@ -1117,6 +1159,8 @@ func c12SliceOwners(nops int, fullInit bool, faults bool) {
 	db := openReal(stubDialector{nullDefault: true}, s, nil)
 	var kinds []int
 	defer func() { mdb.Dump(c12Label("many2many-slice", kinds, false)) }()
+	assoc := db.Model(&sps).Association("Langs")
+	assoc = nil
 	for k := 0; k < nops; k++ {
 		tag := "op" + string([]byte{byte('0' + k)})
 		kind := verifrt.Concretize(verifrt.Intn(tag+"_kind", 0, 3), 0, 3)
@@ -1144,7 +1188,11 @@ func c12SliceOwners(nops int, fullInit bool, faults bool) {
 		}
 		label := c12Label("many2many-slice", kinds, false)
 		verifrt.Tag(label)
-		a := db.Model(&sps).Association("Langs")
+		// the first two operations run on one Association value, the third on a new one
+		if assoc == nil || k == 2 {
+			assoc = db.Model(&sps).Association("Langs")
+		}
+		a := assoc
 		var err error
 		switch kind {
 		case 0:
@@ -1221,6 +1269,7 @@ func c12SliceOwners(nops int, fullInit bool, faults bool) {
 		}
 		n := db.Model(&[]Speaker{{ID: 1}, {ID: 2}}).Association("Langs").Count()
 		verifrt.Assert(n == int64(total), "C12.count:"+label)
+		verifrt.Assert(a.Count() == n, "C12.count-on-used-value:"+label)
 		// the in-memory relation field of each record
 		for o := 1; o <= 2; o++ {
 			var want, mem []int
@@ -1278,6 +1327,8 @@ func H_C12_BelongsToRef(shape int) {
 	db := openReal(stubDialector{nullDefault: true}, s, nil)
 	var kinds []int
 	defer func() { mdb.Dump(c12Label("belongs-to-ref", kinds, false)) }()
+	assoc := db.Model(&o).Association("Region")
+	assoc = nil
 	for k := 0; k < nops; k++ {
 		tag := "op" + string([]byte{byte('0' + k)})
 		kind := verifrt.Concretize(verifrt.Intn(tag+"_kind", 0, 3), 0, 3)
@@ -1295,7 +1346,11 @@ func H_C12_BelongsToRef(shape int) {
 		}
 		label := c12Label("belongs-to-ref", kinds, false)
 		verifrt.Tag(label)
-		a := db.Model(&o).Association("Region")
+		// the first two operations run on one Association value, the third on a new one
+		if assoc == nil || k == 2 {
+			assoc = db.Model(&o).Association("Region")
+		}
+		a := assoc
 		var err error
 		switch kind {
 		case 0:
@@ -1341,6 +1396,7 @@ func H_C12_BelongsToRef(shape int) {
 		probe := Shop{ID: 1, RegionCode: link}
 		n := db.Model(&probe).Association("Region").Count()
 		verifrt.Assert(n == want, "C12.count:"+label)
+		verifrt.Assert(a.Count() == n, "C12.count-on-used-value:"+label)
 		var found RegionRef
 		verifrt.Assert(db.Model(&probe).Association("Region").Find(&found) == nil, "C12.error:"+label)
 		verifrt.Assert(found.Code == link, "C12.find:"+label)
